@@ -5,6 +5,7 @@ import (
 	"encoding/json"
 	"fmt"
 	"sort"
+	"sync"
 	"time"
 
 	pt "github.com/weedbox/pokertable"
@@ -505,6 +506,67 @@ func c03Run(c *h.Ctx) {
 			return
 		}
 	}
+	if r.Intn(4) == 0 && !c.Failed() {
+		// "at every moment": a departure of several players and reservations of newcomers overlap (two goroutines);
+		// afterwards the three views agree and show exactly the accepted calls
+		var leavers []string
+		for id := range model.seatOf {
+			if len(leavers) < 3 {
+				leavers = append(leavers, id)
+			}
+		}
+		sort.Strings(leavers)
+		type rres struct {
+			id  string
+			err error
+		}
+		var wg sync.WaitGroup
+		var lerr []error
+		var rr []rres
+		wg.Add(2)
+		go func() {
+			defer wg.Done()
+			for _, id := range leavers {
+				lerr = append(lerr, s.TE.PlayersLeave([]string{id}))
+			}
+		}()
+		go func() {
+			defer wg.Done()
+			for k := 0; k < 3; k++ {
+				id := fmt.Sprintf("storm%d", k)
+				rr = append(rr, rres{id, s.TE.PlayerReserve(pt.JoinPlayer{PlayerID: id, RedeemChips: 30, Seat: -1})})
+			}
+		}()
+		done := make(chan struct{})
+		go func() { wg.Wait(); close(done) }()
+		select {
+		case <-done:
+		case <-time.After(20 * time.Second):
+			c.Inconclusive("overlapping leave / reserve did not return within 20 s")
+			return
+		}
+		for i, id := range leavers {
+			if lerr[i] == nil {
+				delete(model.seatOf, id)
+				delete(model.isIn, id)
+			}
+		}
+		for _, x := range rr {
+			if x.err == nil {
+				if pi := h.PlayerIdx(s.TE.GetTable(), x.id); pi >= 0 {
+					model.seatOf[x.id] = s.TE.GetTable().State.PlayerStates[pi].Seat
+				} else {
+					model.seatOf[x.id] = -1
+				}
+			}
+		}
+		c.Feature("overlapping-leave-and-reserve")
+		ops = append(ops, c03Op{Kind: "overlap", Expect: "ok", Got: "ok", Leaves: leavers})
+		if sig, det := c03Consistent(s, model); sig != "" {
+			c.Violate(sig, fmt.Sprintf("after a departure of %v overlapping three random-seat reservations: %s", leavers, det), witness())
+			return
+		}
+	}
 	if cfg.Mode != "mtt" && r.Intn(3) == 0 && !c.Failed() {
 		// last step of the sequence: the engine's auto seat-in fires (normally 17 s after the last reservation; here
 		// its ready group is completed the way its own timeout handler does): everybody reserved but not seated-in
@@ -579,7 +641,7 @@ func init() {
 			return map[string]int{"quick": 1500, "thorough": 20000}[tier]
 		},
 		RequiredFeatures: func(string) []string {
-			return []string{"vacated-seat-taken-again", "leave-with-unknown-id", "update:leave-with-refused-join", "op:reserve:error", "op:update:ok", "op:update:error", "status:table_game_standby", "status:table_pausing", "status:table_created", "create-with-duplicate-id", "auto-seat-in-fired", "update:leaver-named-twice"}
+			return []string{"vacated-seat-taken-again", "leave-with-unknown-id", "update:leave-with-refused-join", "op:reserve:error", "op:update:ok", "op:update:error", "status:table_game_standby", "status:table_pausing", "status:table_created", "create-with-duplicate-id", "auto-seat-in-fired", "update:leaver-named-twice", "overlapping-leave-and-reserve"}
 		},
 		CaseTimeout: 120e9,
 		Run:         c03Run,
